@@ -148,6 +148,7 @@ func Table(thorough bool) []dialx.Case {
 				if hi >= 2 && !thorough && li%4 != 2 {
 					continue
 				}
+				step := "" // decision for the 2nd client line of the AUTH exchange ("" = none)
 				row := func(pol string, adv bool, reply, hs string) {
 					c := dialx.Case{Kind: "dial", Policy: pol, Auth: a.typ, Custom: a.custom, Host: host, Mute: -1,
 						Caps: caps(list, adv), CapsTLS: caps(list, false), HS: hs}
@@ -159,6 +160,9 @@ func Table(thorough bool) []dialx.Case {
 						c.Script = []string{"ok", "ok", reply}
 					default:
 						c.Script = []string{"ok", "ok", authDec}
+					}
+					if step != "" {
+						c.Script = append(c.Script, step)
 					}
 					out = append(out, c)
 				}
@@ -172,6 +176,15 @@ func Table(thorough bool) []dialx.Case {
 						authDec = d
 						row("N", false, "ok", "ok")
 						authDec = save
+					}
+				}
+				// the 2nd step of a multi-step exchange (LOGIN user name, CRAM-MD5 response) refused, or the server gone
+				if authDec == "ok" && (strings.HasPrefix(a.typ, "LOGIN") || a.typ == "CRAM-MD5" || a.typ == "AUTODISCOVER") {
+					for _, d := range []string{"535", "421", "drop", "334b"} {
+						step = d
+						row("N", false, "ok", "ok")
+						row("M", true, "ok", "ok")
+						step = ""
 					}
 				}
 				for _, pol := range []string{"M", "O"} {
